@@ -20,6 +20,10 @@ def parseOp (w : String) : Option Op :=
   | ["stop", h, _] => some (.stop (nat! h))
   | ["close", h] => some (.close (nat! h))
   | ["close", h, _] => some (.close (nat! h))
+  | ["ref", h] => some (.ref (nat! h))
+  | ["ref", h, _] => some (.ref (nat! h))
+  | ["unref", h] => some (.unref (nat! h))
+  | ["unref", h, _] => some (.unref (nat! h))
   | _ => none
 
 def obs (d : DS) : List String :=
@@ -31,7 +35,7 @@ def obs (d : DS) : List String :=
   let hl := String.join ((List.range d.nh).map fun i =>
     let h := d.s.hs i
     if h.closed then s!" {i}:x"
-    else s!" {i}:{if h.signum ≠ 0 then 1 else 0}{if h.closing then "c" else ""}:{h.signum}:{h.caught}:{h.dispatched}")
+    else s!" {i}:{if h.signum ≠ 0 then 1 else 0}{if h.closing then "c" else ""}:{h.signum}:{h.caught}:{h.dispatched}:{if h.ref then "r" else "u"}")
   ["obs sigaction" ++ sa, "obs handles" ++ hl]
 
 def hid? (d : DS) (w : String) : Option Nat :=
@@ -91,6 +95,12 @@ def sigStep (d : DS) : List String → DS × List String
     | none => (d, ["bad-op"])
   | ["close", h] => match hid? d h with
     | some i => doOp d (.close i)
+    | none => (d, ["bad-op"])
+  | ["ref", h] => match hid? d h with
+    | some i => doOp d (.ref i)
+    | none => (d, ["bad-op"])
+  | ["unref", h] => match hid? d h with
+    | some i => doOp d (.unref i)
     | none => (d, ["bad-op"])
   | [] => (d, [])
   | _ => (d, ["bad-op"])
